@@ -170,22 +170,68 @@ for k, case in enumerate(cases):
 """
 
 
-def run_batch(module, func, cases, kind="shim", timeout=40):
+def _run_child_watch(code, case_timeout, start_timeout=60):
+    """run the child; kill it when a single case produces no output line for `case_timeout` seconds.
+    Returns (status, lines) with status ok | timeout | crash:<rc>"""
+    import selectors, signal
+    env = dict(os.environ)
+    env["PYTHONPATH"] = os.path.join(common.REPO, "src") + os.pathsep + os.path.join(common.VERIF, "harness")
+    proc = subprocess.Popen([sys.executable, "-u", "-c", code], stdout=subprocess.PIPE, stderr=subprocess.PIPE, env=env,
+                            start_new_session=True)
+    sel = selectors.DefaultSelector()
+    sel.register(proc.stdout, selectors.EVENT_READ)
+    lines, buf = [], b""
+    started = False
+    last = time.time()
+    status = None
+    while True:
+        limit = case_timeout if started else start_timeout
+        ev = sel.select(timeout=0.25)
+        if ev:
+            chunk = os.read(proc.stdout.fileno(), 1 << 16)
+            if not chunk:
+                break
+            buf += chunk
+            while b"\n" in buf:
+                ln, buf = buf.split(b"\n", 1)
+                lines.append(ln.decode("utf-8", "replace"))
+                started = True
+            last = time.time()
+        elif time.time() - last > limit:
+            status = "timeout"
+            try:
+                os.killpg(proc.pid, signal.SIGKILL)
+            except OSError:
+                pass
+            break
+    try:
+        _, err = proc.communicate(timeout=10)
+    except subprocess.TimeoutExpired:
+        proc.kill()
+        err = b""
+    if status is None:
+        status = "ok" if proc.returncode == 0 else "crash:%d" % proc.returncode
+    return status, lines, (err or b"").decode("utf-8", "replace")[-1500:]
+
+
+def run_batch(module, func, cases, kind="shim", timeout=8, max_failures=3):
     """run `module.func(case, lib)` for every case in ONE child process (the call may hang or crash).
-    Returns a list aligned with `cases`: result dict | {"hang": True} | {"crash": rc} | None (not reached:
-    only when `stop_after_failure`).  After a hang / crash the remaining cases run in a new child."""
+    `timeout` is per case (no output for that long = hang).  Returns a list aligned with `cases`:
+    result dict | {"hang": True} | {"crash": rc} | None (not run: after `max_failures` hangs / crashes the
+    rest of the batch is skipped).  After a hang / crash the remaining cases run in a new child."""
     so = common.build_engine(kind)
     results = [None] * len(cases)
     start = 0
+    failures = 0
     d = common.scratch_dir("verif_batch_")
-    while start < len(cases):
+    while start < len(cases) and failures < max_failures:
         path = os.path.join(d, "cases_%d.json" % start)
         with open(path, "w") as f:
             json.dump(common.jsonable(cases[start:]), f)
         code = CHILD % {"harness": os.path.join(common.VERIF, "harness"), "module": module, "func": func, "so": so, "cases": path}
-        status, out = common.run_child(code, timeout=timeout)
+        status, lines, err = _run_child_watch(code, timeout)
         started = -1
-        for line in out.splitlines():
+        for line in lines:
             if line.startswith("S "):
                 started = int(line[2:])
             elif line.startswith("R "):
@@ -194,10 +240,11 @@ def run_batch(module, func, cases, kind="shim", timeout=40):
         if status == "ok":
             break
         if started < 0:
-            raise common.CheckBroken("sandboxed batch did not start (%s): %s" % (status, out[-1500:]))
+            raise common.CheckBroken("sandboxed batch did not start (%s): %s" % (status, err))
         bad = start + started
         if results[bad] is None:
-            results[bad] = {"hang": True, "timeout_s": timeout} if status == "timeout" else {"crash": status, "tail": out[-600:]}
+            results[bad] = {"hang": True, "timeout_s": timeout} if status == "timeout" else {"crash": status, "tail": err[-600:]}
+            failures += 1
         start = bad + 1
     return results
 
